@@ -66,8 +66,17 @@ func (g *heapGen) newName() []int {
 func (g *heapGen) alphaFor(al int) []byte {
 	switch g.mode {
 	case "C12", "C13":
+		// one time in three an alphabet that automatic detection recognises (no X among nucleotides, a protein-only
+		// letter among amino acids): such alignments can be given to the command line without naming their alphabet
+		det := g.rng.Intn(3) == 0
 		if al == 0 {
+			if det {
+				return []byte("AaQX-xNnE")
+			}
 			return cleanAa
+		}
+		if det {
+			return []byte("AaCN-nGT")
 		}
 		return cleanNt
 	case "C06":
